@@ -39,6 +39,7 @@ class Check(HCheck):
             al.delete(0),
             al.rule(A, "path1"),
             al.rule(Ax, "path2"),
+            al.rule(Ax, "path1"),  # a page AT the anchor is itself matched by the rule
             al.rule(C1, "subdomain"),
             al.unrule(A),
             al.REOPEN,
